@@ -61,6 +61,8 @@ def shapes(tier='quick'):
           extra={'mc_reply': 'missing'})
     shape('mc-claim-returns-void', [I_claim], [(0, P)], mc=0, expect='MultiClientCfgError',
           extra={'mc_claim': 'event1'})
+    shape('mc-claim-returns-extern', [I_claim], [(0, P)], mc=0, expect='MultiClientCfgError',
+          extra={'claim_ret': 'extern'})
     shape('empty-shell-name', [I_io], [(0, P)], expect='CppGenError', extra={'empty_shell_name': True})
     shape('encapsulee-unknown', [I_io], [(0, P)], expect='AdvShellError', extra={'encapsulee': 'missing'})
     shape('encapsulee-is-interface', [I_io], [(0, P)], expect='AdvShellError', extra={'encapsulee': 'interface'})
